@@ -202,6 +202,10 @@ pub struct SessionSpec {
     pub order: Vec<usize>,
     /// 0 = default (zero) salt, n = salt filled with byte n
     pub salt: u8,
+    /// the session is run by ANOTHER client that shares this store and this shard cache: it runs against its own
+    /// directories (so this process' cached shard manager never hears of it) and afterwards the xorbs, the store
+    /// shards and the cache shards it produced are placed into the shared directories, as another process would
+    pub foreign: bool,
 }
 impl SessionSpec {
     pub fn seq(files: Vec<FileSpec>) -> SessionSpec {
@@ -209,16 +213,18 @@ impl SessionSpec {
             files,
             order: vec![],
             salt: 0,
+            foreign: false,
         }
     }
     pub fn to_json(&self) -> Value {
-        json!({"files": self.files.iter().map(|f| f.to_json()).collect::<Vec<_>>(), "order": self.order, "salt": self.salt})
+        json!({"files": self.files.iter().map(|f| f.to_json()).collect::<Vec<_>>(), "order": self.order, "salt": self.salt, "foreign": self.foreign})
     }
     pub fn from_json(v: &Value) -> SessionSpec {
         SessionSpec {
             files: v["files"].as_array().map(|a| a.iter().map(FileSpec::from_json).collect()).unwrap_or_default(),
             order: v["order"].as_array().map(|a| a.iter().map(|x| x.as_u64().unwrap_or(0) as usize).collect()).unwrap_or_default(),
             salt: v["salt"].as_u64().unwrap_or(0) as u8,
+            foreign: v["foreign"].as_bool().unwrap_or(false),
         }
     }
     pub fn label(&self) -> String {
@@ -497,6 +503,23 @@ impl Lab {
 
     /// Runs one session on the store at `cas` through the public API only.
     pub fn run_session(&self, cas: &Path, spec: &SessionSpec) -> SessObs {
+        if spec.foreign {
+            let other = cas.join("other-client");
+            let mut plain = spec.clone();
+            plain.foreign = false;
+            let mut obs = self.run_session(&other, &plain);
+            for (from, to) in [(store_xorb_dir(&other), store_xorb_dir(cas)), (store_shard_dir(&other), store_shard_dir(cas)), (shard_cache_dir(&other), shard_cache_dir(cas))] {
+                let _ = std::fs::create_dir_all(&to);
+                for n in list_names(&from) {
+                    let (a, b) = (from.join(&n), to.join(&n));
+                    if a.is_file() && !b.exists() && !n.starts_with('.') {
+                        let _ = std::fs::copy(&a, &b);
+                    }
+                }
+            }
+            obs.cache_shards_after = read_shard_dir(&shard_cache_dir(cas));
+            return obs;
+        }
         let xorbs_before = list_names(&store_xorb_dir(cas));
         let shards_before = list_names(&store_shard_dir(cas));
         let config = make_config(cas, spec.salt);
